@@ -67,6 +67,7 @@ class Check:
         self.counts: Dict[str, int] = {}
         self.trusted_base: List[str] = []
         self.checker_cmd = ""
+        self.undecided: List[str] = []
 
     # ---- recording
     def ok(self, rule: str, fn: str, construct: str, where: str = "", detail: str = "", nontrivial: bool = True):
@@ -83,6 +84,11 @@ class Check:
         else:
             self.fail(rule, fn, construct, where, fail_detail or detail)
         return cond
+
+    def incomplete(self, rule: str, reason: str):
+        """a rule group could not be evaluated on this tree (the code left the fragment the analysis interprets): nothing is
+        claimed for it; the run ends as ANALYSIS-INCOMPLETE (exit 2) unless another rule reports a violation (exit 1)"""
+        self.undecided.append("%s: %s" % (rule, reason[:400]))
 
     def assume(self, text: str):
         if text not in self.assumptions:
@@ -126,6 +132,10 @@ class Check:
         if under:
             print("ANALYSIS-INCOMPLETE property=%s instance floor undershot: %s" % (self.pid, "; ".join(under)))
             return 1 if violations else 2
+        for u in self.undecided:
+            print("ANALYSIS-INCOMPLETE property=%s %s" % (self.pid, u))
+        if self.undecided:
+            return 1 if violations else 2
         return 1 if violations else 0
 
     def write_evidence(self, wall, violations, known_hit, prog):
@@ -146,6 +156,7 @@ class Check:
             "known_findings_matched": [o.key for o in known_hit],
             "violations": [o.as_dict() for o in violations],
             "exhaustive": False,
+            "undecided_rule_groups": list(self.undecided),
         }
         if self.level == "proof":
             cov["checker_cmd"] = self.checker_cmd
